@@ -103,12 +103,14 @@ class LetFiller(Visitor):
     def visit_NamedQubit(self, qubit):
         """Visit a named qubit that may possibly have its index
         remapped. Doing so will change the name of the qubit."""
+        # The source register is always visited: its size or alias
+        # bounds may be given by let constants too.
+        new_from = self.visit(qubit.alias_from)
         if isinstance(qubit.alias_index, Constant):
             new_index = self.resolve_constant(qubit.alias_index)
-            new_from = self.visit(qubit.alias_from)
-            return new_from[new_index]
         else:
-            return qubit
+            new_index = qubit.alias_index
+        return new_from[new_index]
 
     def visit_Register(self, reg):
         """Visit either a fundamental register or a map alias. Either may
